@@ -114,6 +114,22 @@ func main() {
 			}
 			return nil
 		}},
+		{"SinglePipelineSimulate-failing-after-the-run", func(bm *bondmachine.Bondmachine) error {
+			// a two-output machine and a data type whose export fails ("signed": not implemented) or that does
+			// not exist: the pipeline runs to its end, then the call returns an error
+			k := len(bm.Processors)
+			n := gen.FanOut(2, 8, k%2, []int{0, k % 3}, false)
+			fbm, err := n.Build()
+			if err != nil {
+				return err
+			}
+			typ := []string{"signed", "float64"}[k%2]
+			out, err := fbm.SinglePipelineSimulate(typ, []string{"5"}, nil)
+			if err == nil {
+				return fmt.Errorf("expected an error for data type %s, got %v", typ, out)
+			}
+			return nil
+		}},
 		{"Fitness_default", func(bm *bondmachine.Bondmachine) error {
 			// Fitness_default hands a nil *Config to SimConfig.Init/SimDrive.Init, which dereference it
 			// as soon as the input simbox has a rule; it is only callable with an empty input simbox.
